@@ -42,6 +42,9 @@ RULE = ('stratified by case index: operation {slice, dedrift, dedrift of a const
         'object compared element-wise; distinct = distinct case descriptor')
 ASSUMPTIONS = [
     'slice bounds are 0 <= l < r <= fchans (an empty or reversed slice is not a frame)',
+    'time labels: a TimeSeries must carry the parent\'s labels whatever they are (a consolidated cadence has absolute, gapped ones); '
+    'the labels of derived FRAMES (slices, de-drifted frames) are compared with the parent\'s only when the parent\'s count from its own '
+    'start (i*dt) -- the property states nothing about them otherwise',
     'a derived frame recomputes its axis from its first channel: labels may differ from the parent\'s by <= 8 ulp(fmax) '
     '(each linspace label is within ~2 ulp of its exact grid: <= 1 ulp from the rounded end point spread over the steps, 1/2 for '
     'the step product, 1/2 for the sum; the child stacks its own 2 on an anchor that already carries the parent\'s 2, and is '
